@@ -60,6 +60,9 @@ def value_nodes_from_path(sg, focus, path_val, target_graph, inverse: bool = Fal
                 raise ReportableRuntimeError("A list of SHACL Paths must contain at least two path items.")
             else:
                 go_deeper = False
+        if inverse and go_deeper:
+            # The inverse of a sequence walks the sequence backwards: ^(a/b) is ^b/^a
+            first_node, rest_node = rest_node, first_node
         this_level_nodes = value_nodes_from_path(
             sg, focus, first_node, target_graph, inverse=inverse, recursion=recursion + 1
         )
